@@ -32,9 +32,12 @@ pub enum Policy {
     DelayShortFlush,
     AlwaysFlush,
     AlwaysFsync,
+    /// OnDelay with a sub-millisecond interval (250 us, FlushAndFsync): elapses between most
+    /// calls without any help, and exercises interval arithmetic done in coarser units.
+    DelaySubMsFsync,
 }
 
-pub const ALL_POLICIES: [Policy; 7] = [
+pub const ALL_POLICIES: [Policy; 8] = [
     Policy::DoNothing,
     Policy::DelayLongFlush,
     Policy::DelayLongFsync,
@@ -42,6 +45,7 @@ pub const ALL_POLICIES: [Policy; 7] = [
     Policy::DelayShortFlush,
     Policy::AlwaysFlush,
     Policy::AlwaysFsync,
+    Policy::DelaySubMsFsync,
 ];
 
 impl Policy {
@@ -64,6 +68,10 @@ impl Policy {
                 interval: Duration::from_millis(2),
                 action: PersistAction::Flush,
             },
+            Policy::DelaySubMsFsync => PersistPolicy::OnDelay {
+                interval: Duration::from_micros(250),
+                action: PersistAction::FlushAndFsync,
+            },
             Policy::AlwaysFlush => PersistPolicy::Always(PersistAction::Flush),
             Policy::AlwaysFsync => PersistPolicy::Always(PersistAction::FlushAndFsync),
         }
@@ -75,6 +83,7 @@ impl Policy {
             Policy::DelayLongFsync => "OnDelay(1h,FlushAndFsync)",
             Policy::DelayZeroFsync => "OnDelay(0,FlushAndFsync)",
             Policy::DelayShortFlush => "OnDelay(2ms,Flush)+sleeps",
+            Policy::DelaySubMsFsync => "OnDelay(250us,FlushAndFsync)",
             Policy::AlwaysFlush => "Always(Flush)",
             Policy::AlwaysFsync => "Always(FlushAndFsync)",
         }
@@ -765,8 +774,8 @@ impl Model {
                         break;
                     }
                 }
-                if mq.recs.is_empty() && *pos + 1 > mq.next {
-                    mq.next = *pos + 1;
+                if mq.recs.is_empty() && pos.saturating_add(1) > mq.next {
+                    mq.next = pos.saturating_add(1);
                 }
                 Outcome::Truncated { evicted, bytes: 0 }
             }
